@@ -36,7 +36,7 @@ def plan(tier):
 
 def floors(tier):
     return {"nontrivial": 50, "held:main": 150, "held:integrated": 40, "counter:rhs_checks": 500, "counter:jacobian_checks": 500,
-            "counter:integrated_sensitivity_checks": 100, "counter:parameter_changes_between_evaluations": 150, "counter:t_first_twin_calls": 300, "counter:z_form_int-list": 60, "counter:z_form_int64-array": 60, "counter:z_form_float-list": 60, "class:single-state": 10, "class:parameter-free": 10, "class:nP!=nS-1": 60,
+            "counter:integrated_sensitivity_checks": 100, "counter:integrated_via_T_twins_with_args": 25, "counter:integrated_full_output": 25, "counter:parameter_changes_between_evaluations": 150, "counter:t_first_twin_calls": 300, "counter:z_form_int-list": 60, "counter:z_form_int64-array": 60, "counter:z_form_float-list": 60, "class:single-state": 10, "class:parameter-free": 10, "class:nP!=nS-1": 60,
             "class:time-dependent": 15, "class:derived-param": 15}
 
 
@@ -224,8 +224,18 @@ def run_case(rng, idx, tier, lane, ctx):
                     else:
                         bs = variant == "by-state"
                         z0 = np.concatenate([x0, np.zeros(nS * nP)])
-                        sol = ode_utils.integrateFuncJac(lambda t, z: m.ode_and_sensitivity(z, t, bs), lambda t, z: m.ode_and_sensitivity_jacobian(z, t, bs),
-                                                         z0, c.t0, c.times, method=meth)
+                        fo = rng.random() < 0.5
+                        if rng.random() < 0.5:
+                            sol = ode_utils.integrateFuncJac(lambda t, z: m.ode_and_sensitivity(z, t, bs), lambda t, z: m.ode_and_sensitivity_jacobian(z, t, bs),
+                                                             z0, c.t0, c.times, method=meth, full_output=fo)
+                        else:
+                            # the documented way: the t-first twins with the arrangement flag passed through args=
+                            sol = ode_utils.integrateFuncJac(m.ode_and_sensitivity_T, m.ode_and_sensitivity_jacobian_T, z0, c.t0, c.times,
+                                                             args=(bs,), method=meth, full_output=fo)
+                            counters["integrated_via_T_twins_with_args"] = counters.get("integrated_via_T_twins_with_args", 0) + 1
+                        if fo:
+                            sol = sol[0]
+                            counters["integrated_full_output"] = counters.get("integrated_full_output", 0) + 1
                 sol = np.asarray(sol, dtype=float)
             except Exception as e:
                 bad("integrating the %s sensitivity system raised" % variant, method=meth, error=short_exc(e), tb=tb_tail(e))
